@@ -2,6 +2,7 @@ package value
 
 import (
 	"fmt"
+	"sort"
 	"strings"
 
 	zerr "github.com/DemoHn/Zn/pkg/error"
@@ -60,6 +61,30 @@ func (hm *HashMap) String() string {
 // GetKeyOrder -
 func (hm *HashMap) GetKeyOrder() []string {
 	return hm.keyOrder
+}
+
+// OrderedKeys - every key of the dictionary exactly once, in a reproducible order: the
+// dictionary's own key order first, then (should the two ever disagree) the remaining keys sorted
+func (hm *HashMap) OrderedKeys() []string {
+	keys := make([]string, 0, len(hm.value))
+	seen := make(map[string]bool, len(hm.value))
+	for _, k := range hm.keyOrder {
+		if _, ok := hm.value[k]; ok && !seen[k] {
+			seen[k] = true
+			keys = append(keys, k)
+		}
+	}
+	if len(keys) < len(hm.value) {
+		rest := []string{}
+		for k := range hm.value {
+			if !seen[k] {
+				rest = append(rest, k)
+			}
+		}
+		sort.Strings(rest)
+		keys = append(keys, rest...)
+	}
+	return keys
 }
 
 // GetValue -
